@@ -77,7 +77,9 @@ LawUnroll ==
                       [] e.mode = "index" -> {e.n1} [] e.mode = "value" -> {} [] e.mode = "both" -> {e.n1}
             alias == CASE e.mode = "default" -> IF p.kind = "map" THEN "" ELSE e.n1
                        [] e.mode = "index" -> "" [] e.mode = "value" -> e.n2 [] e.mode = "both" -> e.n2
-        IN (p.ok /\ ~(e.mode = "both" /\ e.n1 = e.n2) /\ FreeRoots(e.e, {}) \cap keyN = {}) =>
+        \* (a position name equal to the collection's own root shadows it inside the braces: the element alias cannot be resolved
+        \* there, while the unrolled bodies stand outside the braces - no unrolling law for that shape)
+        IN (p.ok /\ ~(e.mode = "both" /\ e.n1 = e.n2) /\ FreeRoots(e.e, {}) \cap keyN = {} /\ (alias = "" \/ e.sel.path[1] \notin keyN)) =>
              Out(e, c, d) = FoldOut(e.op, [i \in 1..Len(p.parts) |->
                                 Out(IF alias = "" THEN e.e ELSE Subst(e.e, alias, e.sel.path \o <<p.parts[i]>>), c, d)], 1)
 
